@@ -46,3 +46,19 @@ Theorem C14_precedences_from_source :
   MINIPARSER_PREC_LOWEST = 0 /\ MINIPARSER_PREC_PREFIX = PREC_PREFIX.
 Proof. repeat split. Qed.
 Print Assumptions C14_precedences_from_source.
+
+(* ---- completeness on the standard renderings --------------------------------------------------------- *)
+From Hera.Proofs Require Import C14_Render C14_Complete.
+
+(* every derivation of the grammar is found by the parser, given enough fuel *)
+Theorem C14_pratt_complete : forall ts e r, Sum ts e r ->
+  exists n, forall f, (n <= f)%nat -> match_expr f 0 ts = POk e r.
+Proof. exact (proj2 (proj2 (proj2 (proj2 parser_complete)))). Qed.
+Print Assumptions C14_pratt_complete.
+
+(* any expression tree, written with the usual minimal parentheses (left-associative operators,
+   * and / binding tighter than + and -, prefix operators tightest), is read back as that tree *)
+Theorem C14_parse_render : forall e rest, starts_add rest = false -> starts_mul rest = false ->
+  exists n, forall f, (n <= f)%nat -> match_expr f 0 (render e ++ rest) = POk e rest.
+Proof. exact parse_render. Qed.
+Print Assumptions C14_parse_render.
